@@ -183,6 +183,10 @@ def gen_inputs(ctx):
         c = [(k, v) for k, v in c if k not in ('Maximum Drawdown', 'Drawdown Parameter')]
         c += [('Maximum Drawdown', configs.dec(rnd, 0.05, 0.3, 2)), ('Drawdown Parameter', configs.dec(rnd, 0.01, 0.04, 3))]
         cfgs.append(c)
+    for _ in range(ctx.n(2, 20)):   # end-use equipment cost supplied at its minimum (0): used verbatim, not taken for "not provided"
+        for pl, key in ((6, 'Heat Pump Capital Cost'), (5, 'Absorption Chiller Capital Cost')):
+            c = [(k, v) for k, v in configs.synthetic(rnd, enduse=2, plant=pl) if k not in (key, 'Surface Plant Capital Cost', 'Total Capital Cost')]
+            cfgs.append(c + [(key, '0')])
     for _ in range(ctx.n(6, 60)):   # district heating: every way of obtaining the network cost
         cfgs.append(configs.synthetic(rnd, enduse=2, plant=7, resmodel=4, life=rnd.choice([5, 10, 20])))
     texts = [('synthetic', runner.params_to_text(c)) for c in cfgs]
